@@ -3,7 +3,7 @@
 import sys,os,shutil,json,subprocess,glob
 name,prop,caught,needs,sigs=sys.argv[1:6]
 note=sys.argv[6] if len(sys.argv)>6 else ""
-src='/tmp/wt/out/'+name
+src=os.environ.get('SEEDSRC','/tmp/wt/out3')+'/'+name
 dst='/verif/seeded/'+name
 shutil.rmtree(dst,ignore_errors=True)
 os.makedirs(dst)
